@@ -46,17 +46,41 @@ def judge_ops(events, tag="judge", timeout=1800):
         return _judge_ops(events, tag + "-retry", timeout)
 
 
+MAX_TRACE_BYTES = 10 ** 9      # the trace is read into one Java string
+
+
+def _write_events(fd, path, events):
+    size = 0
+    with os.fdopen(fd, "w") as f:
+        for e in events:
+            line = json.dumps(e) + "\n"
+            size += len(line)
+            if size > MAX_TRACE_BYTES:
+                break
+            f.write(line)
+    if size > MAX_TRACE_BYTES:
+        os.remove(path)
+        raise T.MachineryError("the observations to be judged do not fit into one trace file (%d events, more than %d bytes)" % (len(events), MAX_TRACE_BYTES))
+
+
+def _require_ok(stats, path):
+    try:
+        T.require_ok(stats)
+    except T.MachineryError:
+        if os.path.exists(path) and os.path.getsize(path) > 2 * 10 ** 8:
+            os.remove(path)         # (small traces of failed judge runs are kept for inspection)
+        raise
+
+
 def _judge_ops(events, tag, timeout):
     os.makedirs(os.path.join(T.BUILD, "judge"), exist_ok=True)
     fd, path = tempfile.mkstemp(prefix=tag + "-", suffix=".ndjson", dir=os.path.join(T.BUILD, "judge"))
-    with os.fdopen(fd, "w") as f:
-        for e in events:
-            f.write(json.dumps(e) + "\n")
+    _write_events(fd, path, events)
     cfg = T.cfg_text({"Nil": "Nil", "NonNode": "NonNode", "MaxStack": 12}, init="TInit", next_="TNext",
                      postcondition="Accepted", deadlock=False)
     stats = T.run_tlc("TraceOps", cfg, tag=tag, workers=1, env={"TRACE_FILE": path}, use_cache=False,
                       keep_prefixes=('"<<\\"J',), timeout=timeout)
-    T.require_ok(stats)
+    _require_ok(stats, path)
     verdicts = {}
     for line in T.read_lines(stats["lines_path"]):
         m = _RE_J.match(_unquote(line))
@@ -85,13 +109,11 @@ def run_judge(module, events, constants, tag, timeout=1800):
 def _run_judge(module, events, constants, tag, timeout):
     os.makedirs(os.path.join(T.BUILD, "judge"), exist_ok=True)
     fd, path = tempfile.mkstemp(prefix=tag + "-", suffix=".ndjson", dir=os.path.join(T.BUILD, "judge"))
-    with os.fdopen(fd, "w") as f:
-        for e in events:
-            f.write(json.dumps(e) + "\n")
+    _write_events(fd, path, events)
     cfg = T.cfg_text(constants, init="TInit", next_="TNext", postcondition="Accepted", deadlock=False)
     stats = T.run_tlc(module, cfg, tag=tag, workers=1, env={"TRACE_FILE": path}, use_cache=False,
                       keep_prefixes=('"<<\\"J',), timeout=timeout)
-    T.require_ok(stats)
+    _require_ok(stats, path)
     verdicts = {}
     for line in T.read_lines(stats["lines_path"]):
         m = _RE_JQ.match(_unquote(line))
